@@ -3,6 +3,7 @@
 #include "common/vf.hpp"
 #include "common/callers.hpp"
 #include <cerrno>
+#include <cctype>
 extern "C" {
 #include "qlibc.h"
 }
@@ -173,6 +174,114 @@ void chk_fmt(Ctx &c, const std::string &a, long n) {
     g_checked++;
 }
 
+// ---- further routines of qstring.c: references taken from their documentation only where it is
+// unambiguous; for the two validity tests the oracle is two-sided but leaves open what reasonable
+// definitions disagree on
+std::string ref_comma(long long v) {
+    bool neg = v < 0; unsigned long long a = neg ? (unsigned long long)(-v) : (unsigned long long)v;
+    std::string d = std::to_string(a), o;
+    for (size_t i = 0; i < d.size(); i++) { o.push_back(d[i]); size_t left = d.size() - 1 - i; if (left && left % 3 == 0) o.push_back(','); }
+    return (neg ? "-" : "") + o;
+}
+void chk_comma(Ctx &c, int v) {
+    char *r = qstr_comma_number(v);
+    if (!r) c.fail(FUNC, "string:comma-null", "qstr_comma_number(%d) returned NULL", v);
+    std::string got = r; free(r);
+    std::string want = ref_comma(v);
+    if (got != want) c.fail(FUNC, "string:comma", "qstr_comma_number(%d) = \"%s\", expected \"%s\"", v, got.c_str(), want.c_str());
+    g_checked++;
+}
+void chk_memdup(Ctx &c, const std::string &x) {
+    uint8_t *src = new uint8_t[x.size() ? x.size() : 1]; struct D { uint8_t *p; ~D() { delete[] p; } } d{src};
+    memcpy(src, x.data(), x.size());
+    void *r = qmemdup(src, x.size());
+    if (x.empty()) { if (r) { free(r); c.fail(FUNC, "string:memdup", "qmemdup(data, 0) returned a block, documented NULL"); } }
+    else {
+        if (!r) c.fail(FUNC, "string:memdup", "qmemdup of %zu bytes returned NULL", x.size());
+        bool same = memcmp(r, x.data(), x.size()) == 0, aliased = r == (void *)src;
+        free(r);
+        if (!same || aliased) c.fail(FUNC, "string:memdup", "qmemdup of %zu bytes (%s) returned %s", x.size(), hexs(x, 16).c_str(), aliased ? "the source itself" : "different bytes");
+    }
+    if (qmemdup(nullptr, 4) != nullptr) c.fail(FUNC, "string:memdup", "qmemdup(NULL, 4) returned a block");
+    g_checked++;
+}
+void chk_strtest(Ctx &c, const std::string &x) {
+    static int (*const fns[])(int) = {isdigit, isalpha, isalnum, isupper, islower, isxdigit, isspace, ispunct};
+    static const char *names[] = {"isdigit", "isalpha", "isalnum", "isupper", "islower", "isxdigit", "isspace", "ispunct"};
+    HB b(x);
+    for (size_t k = 0; k < sizeof fns / sizeof *fns; k++) {
+        bool want = true; for (unsigned char ch : x) if (!fns[k](ch)) want = false;
+        bool got = qstrtest(fns[k], b.p);
+        if (got != want) c.fail(FUNC, "string:strtest", "qstrtest(%s, %s) = %d, expected %d", names[k], hexs(x).c_str(), (int)got, (int)want);
+    }
+    g_checked++;
+}
+// 1 valid, 0 invalid, -1 left open (an octet written with a leading zero)
+int ref_ip4(const std::string &x) {
+    std::vector<std::string> parts; std::string cur;
+    for (char ch : x) { if (ch == '.') { parts.push_back(cur); cur.clear(); } else cur.push_back(ch); }
+    parts.push_back(cur);
+    if (parts.size() != 4) return 0;
+    bool lead = false;
+    for (auto &p : parts) {
+        if (p.empty()) return 0;
+        for (unsigned char ch : p) if (ch < '0' || ch > '9') return 0;
+        size_t nz = p.find_first_not_of('0'); std::string sig = nz == std::string::npos ? "0" : p.substr(nz);
+        if (sig.size() > 3 || atoi(sig.c_str()) > 255) return 0;
+        if (p.size() > 1 && p[0] == '0') lead = true;
+    }
+    return lead ? -1 : 1;
+}
+void chk_ip4(Ctx &c, const std::string &x) {
+    HB b(x);
+    bool got = qstr_is_ip4addr(b.p);
+    int want = ref_ip4(x);
+    if (b.str() != x) c.fail(FUNC, "string:ip4-src", "qstr_is_ip4addr modified its const argument");
+    if (want >= 0 && (int)got != want) c.fail(FUNC, "string:ip4", "qstr_is_ip4addr(%s) = %d, expected %d (four dot-separated decimal numbers 0..255)", hexs(x).c_str(), (int)got, want);
+    g_checked++;
+}
+// necessary conditions every reading of "email-address formatted" shares, and a plain sufficient form
+void chk_email(Ctx &c, const std::string &x) {
+    HB b(x);
+    bool got = qstr_is_email(b.p);
+    size_t ats = 0, dots = 0; bool badch = false, plain = true;
+    for (unsigned char ch : x) { if (ch == '@') ats++; else if (ch == '.') dots++; else if (!(isalnum(ch) || ch == '-' || ch == '_')) badch = true; }
+    if (got && (ats != 1 || dots == 0 || badch || x[0] == '@')) c.fail(FUNC, "string:email", "qstr_is_email(%s) = true for a string %s", hexs(x).c_str(), ats != 1 ? "without exactly one '@'" : dots == 0 ? "without a dot" : badch ? "with a character outside [A-Za-z0-9._@-]" : "starting with '@'");
+    // local@domain.tld with alphanumeric parts of length >= 2 and single dots
+    size_t at = x.find('@');
+    if (ats == 1 && !badch && at >= 2) {
+        std::string dom = x.substr(at + 1), loc = x.substr(0, at);
+        size_t dd = dom.find('.');
+        plain = loc.find('.') == std::string::npos && dd != std::string::npos && dd >= 2 && dom.find('.', dd + 1) == std::string::npos && dom.size() - dd - 1 >= 2;
+        if (plain && !got) c.fail(FUNC, "string:email", "qstr_is_email(%s) = false for a plain local@domain.tld address", hexs(x).c_str());
+    }
+    g_checked++;
+}
+void chk_unique(Ctx &c, const std::string &seed, bool null_seed) {
+    HB b(seed);
+    char *r1 = qstrunique(null_seed ? nullptr : b.p), *r2 = qstrunique(null_seed ? nullptr : b.p);
+    std::string a = r1 ? r1 : "", d = r2 ? r2 : ""; free(r1); free(r2);
+    for (const std::string *u : {&a, &d}) {
+        bool ok = u->size() == 32; for (char ch : *u) if (!((ch >= '0' && ch <= '9') || (ch >= 'a' && ch <= 'f'))) ok = false;
+        if (!ok) c.fail(FUNC, "string:unique-format", "qstrunique returned \"%s\", documented: 32 characters (lowercase hex of an MD5)", u->c_str());
+    }
+    if (a == d) c.fail(FUNC, "string:unique-repeat", "two consecutive qstrunique calls returned the same id %s", a.c_str());
+    g_checked++;
+}
+// ISO-8859-1 -> UTF-8 has a two-line definition; mag is the caller's output/input size ratio
+void chk_conv(Ctx &c, const std::string &x, float mag) {
+    std::string want; for (unsigned char ch : x) { if (ch < 0x80) want.push_back((char)ch); else { want.push_back((char)(0xC0 | (ch >> 6))); want.push_back((char)(0x80 | (ch & 0x3F))); } }
+    HB b(x);
+    char *r = qstr_conv_encoding(b.p, "ISO-8859-1", "UTF-8", mag);
+    size_t room = (size_t)((mag * (float)x.size()) + 1);
+    bool fits = want.size() + 1 <= room;
+    std::string got = r ? std::string(r) : ""; bool gotok = r != nullptr; free(r);
+    if (fits && !gotok) c.fail(FUNC, "string:conv", "qstr_conv_encoding(%s, ISO-8859-1 -> UTF-8, mag %.1f) returned NULL although the result fits", hexs(x, 24).c_str(), (double)mag);
+    if (gotok && got != want) c.fail(FUNC, "string:conv", "qstr_conv_encoding(%s, ISO-8859-1 -> UTF-8, mag %.1f) = %s, expected %s", hexs(x, 24).c_str(), (double)mag, hexs(got, 24).c_str(), hexs(want, 24).c_str());
+    if (!fits && gotok) c.fail(FUNC, "string:conv", "qstr_conv_encoding returned a string although the output buffer (mag %.1f) cannot hold the result", (double)mag);
+    g_checked++;
+}
+
 std::string gen_str(Src &s, const char *alpha, size_t alen, size_t maxlen) {
     size_t len = s.pick({5, 3, 1}) == 0 ? (size_t)s.range(0, 6) : (size_t)s.range(0, (long)maxlen);
     std::string r;
@@ -192,8 +301,26 @@ bool vf_configure(Ctx &c) {
 // decodes one routine check from the choice source; the returned job performs it (on any thread)
 Job gen_job(Src &s, Ctx &c, bool *nt, const char **tag) {
     static const char A_TRIM[] = " \t\r\nab\x80", A_TXT[] = "abAB,|: \"'Xx\n\r\t\x80z", A_REP[] = "abaXbaa";
-    int tgt = (int)s.pick({3, 2, 4, 4, 2, 2, 4, 4, 1});
+    int tgt = (int)s.pick({3, 2, 4, 4, 2, 2, 4, 4, 1, 1, 1, 1, 1, 1, 1, 1});
     switch (tgt) {
+        case 9: {
+            static const int edges[] = {0, 1, -1, 9, 10, 99, 100, 999, 1000, -999, -1000, 999999, 1000000, -1000000, 2147483647, -2147483647, -2147483647 - 1, 1000000000, 999999999};
+            int v = s.boolean() ? edges[s.range(0, (long)(sizeof edges / sizeof *edges) - 1)] + (int)(s.chance(1, 2) ? 0 : 0) : (int)s.range(-2147483647L - 1, 2147483647L);
+            c.op("comma_number(%d)", v); *nt = v >= 1000 || v <= -1000; *tag = "comma_number"; return [v](Ctx &k) { chk_comma(k, v); }; }
+        case 10: { std::string x = gen_str(s, "\0ab\xff\n", 5, 300); c.op("memdup(%zu bytes)", x.size()); *nt = !x.empty(); *tag = "memdup"; return [x](Ctx &k) { chk_memdup(k, x); }; }
+        case 11: { std::string x = gen_str(s, "09afAFgZ _-\x80\xff.", 14, 40); c.op("strtest(%s)", hexs(x).c_str()); *nt = !x.empty(); *tag = "strtest"; return [x](Ctx &k) { chk_strtest(k, x); }; }
+        case 12: {
+            std::string x;
+            if (s.boolean()) { int np = (int)s.pick({1, 1, 2, 12, 2}); for (int i = 0; i < np; i++) { if (i) x.push_back('.'); int kd = (int)s.pick({6, 2, 1, 1, 1}); x += kd == 0 ? std::to_string(s.range(0, 255)) : kd == 1 ? std::to_string(s.range(256, 1000)) : kd == 2 ? "" : kd == 3 ? "0" + std::to_string(s.range(0, 99)) : "1a"; } }
+            else x = gen_str(s, "0125.a -", 8, 16);
+            c.op("is_ip4addr(%s)", hexs(x).c_str()); *nt = ref_ip4(x) == 1; *tag = "is_ip4addr"; return [x](Ctx &k) { chk_ip4(k, x); }; }
+        case 13: {
+            std::string x;
+            if (s.boolean()) { x = gen_str(s, "abz09", 5, 8) + "@" + gen_str(s, "abz09", 5, 8) + "." + gen_str(s, "abz", 3, 4); if (s.chance(1, 4) && !x.empty()) x[(size_t)s.range(0, (long)x.size() - 1)] = "@. !_-"[s.range(0, 5)]; }
+            else x = gen_str(s, "ab@.-_ 9", 8, 20);
+            c.op("is_email(%s)", hexs(x).c_str()); *nt = x.find('@') != std::string::npos; *tag = "is_email"; return [x](Ctx &k) { chk_email(k, x); }; }
+        case 14: { bool ns = s.chance(1, 4); std::string x = gen_str(s, "seed-0", 6, 300); c.op("unique(seed of %zu bytes%s)", x.size(), ns ? ", NULL" : ""); *nt = !ns && x.size() > 100; *tag = "unique"; return [x, ns](Ctx &k) { chk_unique(k, x, ns); }; }
+        case 15: { std::string x = gen_str(s, "ab \xe9\xff\x80z", 7, 200); static const float mags[] = {1.0f, 1.5f, 2.0f, 3.0f}; float m = mags[s.range(0, 3)]; c.op("conv_encoding(%s, latin1->utf8, mag %.1f)", hexs(x, 24).c_str(), (double)m); bool hi = false; for (unsigned char ch : x) if (ch >= 0x80) hi = true; *nt = hi; *tag = "conv_encoding"; return [x, m](Ctx &k) { chk_conv(k, x, m); }; }
         case 0: { std::string x = gen_str(s, A_TRIM, 7, 60); c.op("trim family on %s", hexs(x).c_str()); *nt = !x.empty() && (blank(x.front()) || blank(x.back())); *tag = "trim"; return [x](Ctx &k) { chk_trim(k, x); }; }
         case 1: { std::string x = gen_str(s, "\"'ab[]", 6, 30); char h = "\"'[a"[s.range(0, 3)], t = "\"']a"[s.range(0, 3)]; c.op("unchar(%s,%c,%c)", hexs(x).c_str(), h, t); *nt = x.size() >= 2 && x.front() == h && x.back() == t; *tag = "unchar"; return [x, h, t](Ctx &k) { chk_unchar(k, x, h, t); }; }
         case 2: {
@@ -259,6 +386,15 @@ bool vf_enumerate(Ctx &c, EnumStats &st) {
     all_strings("ab,| ", 5, L, [&](const std::string &x) { if (!mine()) return; c.trace = "enumerated: tok " + hexs(x); chk_tok(c, x, ",|"); chk_tok(c, x, ","); st.evaluations++; if (x.find_first_of(",|") != std::string::npos) st.nontrivial++; });
     all_strings("a\n\r", 3, L + 1, [&](const std::string &x) { if (!mine()) return; for (size_t size = 2; size <= 5; size++) { c.trace = "enumerated: gets " + hexs(x) + " size " + std::to_string(size); chk_gets(c, x, size); } chk_gets(c, x, 64); st.evaluations++; if (x.find_first_of("\r\n") != std::string::npos) st.nontrivial++; });
     all_strings("abc", 3, 4, [&](const std::string &x) { if (!mine()) return; for (size_t size = 1; size <= x.size() + 2; size++) for (size_t nb = 0; nb <= x.size(); nb++) { c.trace = "enumerated: copy " + hexs(x); chk_copy(c, x, size, nb, true); chk_copy(c, x, size, nb, false); } st.evaluations++; st.nontrivial++; });
+    all_strings("0125.a", 6, L + 2, [&](const std::string &x) { if (!mine()) return; c.trace = "enumerated: is_ip4addr " + hexs(x); chk_ip4(c, x); st.evaluations++; if (x.find('.') != std::string::npos) st.nontrivial++; });
+    all_strings("a@.-!", 5, L + 2, [&](const std::string &x) { if (!mine()) return; c.trace = "enumerated: is_email " + hexs(x); chk_email(c, x); st.evaluations++; if (x.find('@') != std::string::npos) st.nontrivial++; });
+    // every integer in a band around zero and around every power of ten / of two, both signs
+    { std::vector<long long> centres = {0}; for (long long p = 10; p <= 2147483647LL; p *= 10) centres.push_back(p); for (int b = 10; b <= 31; b++) centres.push_back(1LL << b);
+      long long band = c.tier ? 20000 : 2000;
+      for (long long ce : centres) for (int sg = -1; sg <= 1; sg += 2) for (long long dlt = -band; dlt <= band; dlt++) {
+          long long v = sg * ce + dlt; if (v < -2147483648LL || v > 2147483647LL) continue;
+          if (!mine()) continue;
+          c.trace = "enumerated: comma_number " + std::to_string(v); chk_comma(c, (int)v); st.evaluations++; if (v >= 1000 || v <= -1000) st.nontrivial++; } }
     if (g_san_reports) c.fail(MEM, g_san_last, "sanitizer report(s) during the enumeration of short strings: %s", g_san_last);
     st.states = st.evaluations;
     st.extra["max_length"] = (uint64_t)L;
@@ -266,5 +402,6 @@ bool vf_enumerate(Ctx &c, EnumStats &st) {
     st.samples.push_back("all strings of length <= L over {' ',\\t,\\r,\\n,a,0x80} through trim/trim_head/trim_tail/rev/upper/lower");
     st.samples.push_back("all strings over {a,b,X} x search {a,ab,aa,b,aba} x replacement {'',a,XY,aba,b} x modes tn/tr/sn/sr");
     st.samples.push_back("all strings over {a,b,',','|',' '} through qstrtok/qstrtokenizer; over {a,\\n,\\r} through qstrgets with sizes 2..5 and 64");
+    st.samples.push_back("all strings of length <= L+2 over {0,1,2,5,'.',a} through qstr_is_ip4addr and over {a,@,'.',-,!} through qstr_is_email; every integer within a band of 0, +-10^k and +-2^k through qstr_comma_number");
     return true;
 }
